@@ -59,7 +59,9 @@ ASSUMPTIONS = ['md5 is a function (nothing more)',
                'no refresh rule (refresh_before) is configured on the cache',
                'parsedate returns month in 1..12 and a non-negative year (checked on every generated date)']
 EXPLANATION = ('conditional-request decision procedure proved sound/stable for all histories; implementation driven through '
-               'generated histories over file and sqlite caches and compared step by step with the model')
+               'generated histories over file and sqlite caches and compared step by step with the model; fixed histories '
+               '(corpus) also cover a storage-less cache on a storing cache (step_passthrough: validators of the lower tile) and '
+               'cascaded caches whose error fill colour equals the merged background, with a partial upstream outage')
 
 TPS = 1 << 22          # ticks per second used for the model's timestamps (doubles in [2^30, 2^31) are multiples of 2^-22)
 T0 = 1700000000
@@ -1454,6 +1456,13 @@ CHECKER = ("fun c => let '(st, ev, extras, obs, st2) := c in "
            "opt_eqb outcome_eqb o obs && store_agree %s st1' st2" % (TPS, llit(range(NK * NK))))
 
 
+# a cache without storage on a storing cache: the same case format, evaluated by step_passthrough (store = lower cache;
+# the Tile object of the upper request comes from DummyCache: cacheable, no timestamp, no size)
+CHECKER_PT = CHECKER.replace('step (fun s => s)',
+                             'step_passthrough (fun s => s)').replace(
+                                 ' st ev in', ' {| ti_cacheable := true; ti_ts := None; ti_size := None |} st ev in')
+
+
 def run_app_stream(ctx):
     import mapproxy.client.http as H
     import mapproxy.cache.base as CB
@@ -1483,7 +1492,8 @@ def run_app_stream(ctx):
             ctx.count('app:corpus')
             ctx.corr_check('corpus_' + fn[:-5].replace('-', '_'), 'Cond',
                            'store * event * list (Z * entry) * option outcome * store', hist.terms,
-                           CHECKER % (c.get('hours', 72) * 3600), lambda i, h=hist: h.descr[i], shard=60)
+                           (CHECKER_PT if (c.get('opts') or {}).get('passthrough') else CHECKER) % (c.get('hours', 72) * 3600),
+                           lambda i, h=hist: h.descr[i], shard=60)
         for cache_type, meta, hours in configs:
             hist = run_history(ctx, cache_type, meta, hours, nsteps, up, clock)
             ctx.corr_check('app_%s_meta%d_%dh' % (cache_type, meta, hours), 'Cond',
